@@ -63,6 +63,13 @@ var exprs = []expr{
 	{"p::x = 'v'", false, nil, nil},
 	{"p:x = 'v' and", false, nil, nil},
 	{"p:x/ = 'v'", false, nil, nil},
+	// operator and function names are case-sensitive: these are names in operator position
+	{"p:x = 'v' AND q:y", false, nil, nil},
+	{"p:x = 'v' Or q:y", false, nil, nil},
+	{"p:x DIV 2 = 1", false, nil, nil},
+	{"p:x Mod 2 = 1", false, nil, nil},
+	{"Not(p:x)", false, nil, nil},
+	{"p:x = 'v' and q:y or z", true, []string{"p", "q"}, map[string]string{"x": "p", "y": "q", "z": ""}},
 }
 
 // leafref path forms of the same expressions
